@@ -86,13 +86,16 @@ def check_no_clobber(repo, rep, rule='C15.V1'):
         gf = cls.find_method('get_file')       # own method or inherited (e.g. from a storage mix-in placed before the AE base)
         ok = False
         if gf is not None and gf.module.name == '__init__' and len(gf.params) == 3:
-            want = '_get_storage_file(%s, %s, self.storage_dir)' % (gf.params[1], gf.params[2])
-            ok = any(isinstance(n_, ast.Return) and n_.value is not None and norm(n_.value) == want for n_ in ast.walk(gf.node))
+            want = [gf.params[1], gf.params[2], 'self.storage_dir']
+            ok = any(isinstance(n_, ast.Return) and isinstance(n_.value, ast.Call) and norm(n_.value.func) == '_get_storage_file'
+                     and [norm(a_) for a_ in n_.value.args[:3]] == want for n_ in ast.walk(gf.node))
         rep.check(ok, rule, '__init__:%s.get_file' % cname, cls.loc(), 'stores through _get_storage_file in its directory',
                   '%s.get_file does not delegate to _get_storage_file' % cname)
 
 
 def run(repo, rep):
+    from ..pitfalls import memo_rule as _memo_rule
+    _memo_rule(repo, rep, 'C15', 'C15.Z1')
     rep.trust('C01/C06/C07 for the byte path; CPython open() modes; pydicom for data-set encoding')
     rep.assume('NOT DECIDED by this family: end-to-end integrity over real TCP with real threads for all sizes / syntaxes')
     rep.rule('C15.V1', 'the directory-backed get_file creates files exclusively or opens exactly the name it proved unused', 3)
